@@ -112,6 +112,35 @@ def sensitivity(args, seed, core):
     shutil.rmtree(out, ignore_errors=True)
     return 1 if bad else 0
 
+def benign(args, seed, core):
+    """apply each behaviour-preserving change (benign/*/patch.diff) to a scratch copy: the suite must pass and every check
+    recorded in its meta.json (the named property's and those whose engines exercise the touched files) must stay silent"""
+    bad = 0
+    out = tempfile.mkdtemp(prefix="cello-benign-")
+    for meta in sorted(glob.glob(os.path.join(VERIF, "benign", "*", "meta.json"))):
+        m = json.load(open(meta))
+        if args and args != "all" and args not in m["name"] and args not in m["checks_run"]: continue
+        patch = os.path.join(os.path.dirname(meta), "patch.diff")
+        d, err = scratch_repo(patch)
+        if not d:
+            print("benign %s: PATCH DOES NOT APPLY\n%s" % (m["name"], err)); bad += 1; continue
+        try:
+            b = sh([os.path.join(VERIF, "tools", "baseline.sh"), d])
+            res = []
+            for p in m["checks_run"]:
+                if args and args != "all" and args in m["checks_run"] and p != args: continue
+                rc, txt = run_check(p, seed, repo=d, out=out)
+                if rc != 0:
+                    res.append("%s rc=%d %s" % (p, rc, [l[:160] for l in txt.splitlines() if l.startswith(("VIOLATION", "INFRA"))][:2]))
+            ok = b.returncode == 0 and not res
+            print("benign %-10s baseline=%s %s %s" % (m["name"], "pass" if b.returncode == 0 else "FAIL", "SILENT" if ok else "ALARM", "; ".join(res)))
+            if not ok: bad += 1
+        finally:
+            shutil.rmtree(d, ignore_errors=True)
+        sys.stdout.flush()
+    shutil.rmtree(out, ignore_errors=True)
+    return 1 if bad else 0
+
 def regress(args, seed, core):
     """probes of repaired defects must pass on the current tree"""
     bad = 0
@@ -128,4 +157,5 @@ def main(what, seed, opts, core):
     if what == "determinism": return determinism(arg, seed, core)
     if what == "sensitivity": return sensitivity(arg, seed, core)
     if what == "regress": return regress(arg, seed, core)
-    print("selftest: determinism | soak | sensitivity | regress (SELFTEST_ARG selects a property / patch)"); return 2
+    if what == "benign": return benign(arg, seed, core)
+    print("selftest: determinism | soak | sensitivity | benign | regress (SELFTEST_ARG selects a property / patch)"); return 2
